@@ -150,6 +150,13 @@ package proxy
 //@ func newBufferedBody
 //@   ensures [nil_in_nil_out] src == nil ==> (result0 == nil && result1 == nil)
 //@   ensures [buffers_or_fails] (src != nil && result1 == nil) ==> (result0 != nil && result0.Reader != nil)
+//@   at call bytes.NewReader before [buffered_body_reads_all_source_bytes_from_memory_of_its_own] holdsAll(arg0, src) && unshared(arg0)
+//@ // C04 "the same body bytes": the buffered body reads from a slice that holds everything the source delivered and that
+//@ // nobody else can write to (assumed of ioutil.ReadAll: it returns a newly allocated slice with all bytes up to EOF)
+//@ spec holdsAll(b []byte, src io.Reader) bool
+//@ spec unshared(b []byte) bool
+//@ extern io/ioutil.ReadAll
+//@   ensures result1 == nil ==> (holdsAll(result0, r) && unshared(result0))
 //@ extern bytes.NewReader
 //@   ensures result != nil
 //@ extern invoke:(github.com/tmpim/casket/caskethttp/proxy.Upstream).GetHostCount
